@@ -50,6 +50,20 @@ TEXT = {
  'C19': ('Every builder method (macro-expanded setters via contracts generated from each macro invocation, hand-written ones by inserted contracts) is verified against a whole-struct frame postcondition r.inner() == T { field: value, ..self.inner() }; '
          'iv/partial_iv clear each other; builder_set_protected! resets original_data; key constructors are verified to produce exactly kty + named parameters; the four reserved-label guards are verified under the documented precondition and '
          'their necessity copies (precondition removed) must fail at the panic. Sequences of calls: composition of these total per-call contracts (induction on paper).', '4 C19'),
+ 'C01': ('Every exec function on the decode path (read_to_value, the trait default methods, all from_cbor_value/from_cbor_bstr/_nested functions, the Value extractors) and every follow-up helper (to_cbor_value, to_vec, tbs_*, verify_*, tbm, decrypt, canonicalize) is verified by Verus '
+         'to be panic-free (no unwrap/expect/panic!/index/remove out of range/arithmetic overflow reachable) and terminating for ALL inputs, with no precondition or only the documented ones; lemmas show that every decoded value meets the helpers\' serialisability precondition. '
+         'Termination of the Header <-> CoseSignature <-> ProtectedHeader recursion is proved with the measure (16 - depth, value) introduced by the nesting-limit fix, so re-parse depth is at most 16 and Value-level depth is bounded by ciborium\'s 256. '
+         'NOT decided by contracts: stack bytes, wall time, heap (no cost model) and compiler-generated Clone/PartialEq/Drop: a bounded measurement on the real crate (2 MiB stack, nesting 15/16/3000/100000) runs with every check and is reported as bounded.', '4 C01'),
+ 'C07': ('For every type the decoder is verified against an iff acceptance predicate plus a result relation and the encoder against a functional data-model spec; lemmas prove that every decoded value (any nesting) encodes successfully; for CoseKey the full lemma '
+         'decode(encode(k)) = k is proved. The second and third step of the fixed point (re-decoding the re-encoding gives an equal value / the same bytes) for Header, ClaimsSet and the carriers is NOT proved (map round-trip lemma not written); that clause is reported as not decided, nothing is assumed in its place.', '4 C07'),
+ 'C11': ('Every to_cbor_value is verified against a functional spec X_cv(self) written from the CDDL (non-empty field once under its IANA label / in its slot, empties omitted, extras in order, empty protected -> zero-length bstr, single counter signature inlined, None -> nil, '
+         'recipients omitted when empty) with success iff X_encodable(self); to_vec/to_tagged_vec give enc(vv(v)) and S1 (assumed) makes that the definite-length shortest-head encoding. Decode-of-encode is proved for CoseKey only; for the other types that clause is not decided.', '4 C11'),
+ 'C12': ('Decode: the acceptance predicates of Header (every nesting level), CoseKey and ClaimsSet contain pairwise-distinct labels and the decoders are verified to accept iff the predicate holds, so every map with a repeated label is rejected whatever the values and positions; '
+         'the error KIND (DuplicateMapKey) is not part of the verified contract. Encode: Header and CoseKey are verified to succeed iff no extra label repeats another or names a populated typed field, and lemmas prove the emitted keys pairwise distinct; '
+         'ClaimsSet has no check (KNOWN FINDING, pinned by an existing test). Builders: reserved-label guards verified + necessity copies.', '4 C12'),
+ 'C20': ('canonicalize is verified (with the assumed std contract of sort_by and the comparator contracts of C16) to leave every other field unchanged, to permute params (multiset equality) and to leave them sorted under the chosen comparator; a lemma proves that a key with distinct, '
+         'non-typed, non-zero extra labels then encodes with strictly ascending map keys under Label order (= bytewise order of the encoded keys, C16). Length-first ordering: sortedness of params is proved, the ascending-keys lemma is proved for the lexicographic order only. '
+         'Label 0 is a KNOWN FINDING.', '4 C20'),
 }
 checks = []
 for p in props:
